@@ -93,7 +93,15 @@ impl Proc {
 
     /// As `start`, with arguments and environment values that need not be valid UTF-8.
     pub fn start_os(bin: &Path, args: &[std::ffi::OsString], env: &[(String, std::ffi::OsString)], probe_addrs: &[String], wait: Duration) -> Result<Proc, String> {
+        Self::start_in(bin, args, env, probe_addrs, wait, None)
+    }
+
+    /// As `start_os`, in the given working directory (relative paths in the arguments refer to it).
+    pub fn start_in(bin: &Path, args: &[std::ffi::OsString], env: &[(String, std::ffi::OsString)], probe_addrs: &[String], wait: Duration, cwd: Option<&Path>) -> Result<Proc, String> {
         let mut cmd = Command::new(bin);
+        if let Some(d) = cwd {
+            cmd.current_dir(d);
+        }
         // the log level is part of the operator's environment: varied from start to start (an
         // explicit RUST_LOG in `env` wins)
         static STARTS: std::sync::atomic::AtomicUsize = std::sync::atomic::AtomicUsize::new(0);
